@@ -13,8 +13,11 @@ PATH = os.path.join(os.path.dirname(os.path.dirname(os.path.abspath(__file__))),
 
 
 def _github_issue_uri(case):
+    # only the clause that states the round-trip for GitHub issue URIs is covered; any other
+    # failing clause of the same call is still a violation
     uri = case.get("uri", "")
-    return uri.startswith("https://github.com") and "issues" in uri
+    clause = tuple(case.get("clause", ()))
+    return clause == ("mon.C19.github",) and uri.startswith("https://github.com") and "issues" in uri
 
 
 MATCHERS = {
